@@ -295,7 +295,13 @@ func c23Install(cs *blockchain.ChainState, s *c23State) {
 	p.SetKappa(c23Validators())
 	p.SetLambda(c23Validators())
 	p.SetIota(c23Validators())
-	p.SetGammaA(c23Body(s.GammaA))
+	ga := c23Body(s.GammaA)
+	if c23Spare > 0 { // a slice with spare capacity, as the node's own posterior accumulator has
+		g2 := make(types.TicketsAccumulator, len(ga), len(ga)+c23Spare)
+		copy(g2, ga)
+		ga = g2
+	}
+	p.SetGammaA(ga)
 	var gs types.TicketsOrKeys
 	if s.Tickets != nil {
 		gs.Tickets = c23Body(s.Tickets)
@@ -316,6 +322,11 @@ func c23Body(ts []c23Ticket) types.TicketsAccumulator {
 }
 
 var c23RingBytes []byte
+
+// spare capacity (cap - len) of the prior accumulator slice built by c23Install
+var c23Spare int
+
+var c23DiagPriorMutated int
 
 func c23Extrinsic(ext []c23Ticket, eta2 [32]byte) types.TicketsExtrinsic {
 	var out types.TicketsExtrinsic
@@ -364,6 +375,10 @@ type c23Case struct {
 	History []c23Event   `json:"history"` // accepted blocks
 	Event   c23Event     `json:"event"`
 	Fork    *[3]c23Event `json:"fork,omitempty"` // fork-order case: e1, e2 on the state after History, e3 on step(S, e1)
+	// same-parent case: block A then block B imported on the SAME installed parent object (no
+	// re-install in between); Spare = spare capacity of the parent's accumulator slice
+	Same  *[2]c23Event `json:"same,omitempty"`
+	Spare int          `json:"spare,omitempty"`
 }
 
 // non-empty while a fork-order transition runs: prefixes the violation key
@@ -609,6 +624,45 @@ func c23Fork(r *vlib.Run, c *c23Case) {
 	r.Class(fmt.Sprintf("fork-order e1-accepted=%v all-agree=%v", accA, ok1 && ok2 && ok3 && ok4))
 }
 
+// Block A, then block B, on the same installed parent object. When the reference rejects A the state is
+// still S, so B must behave exactly as on a fresh copy of S (the statement's clauses for B, relative to
+// S). When A is accepted a node moves on to the posterior, so nothing is asserted about B; whether the
+// parent's accumulator array was overwritten is only counted (diagnostic).
+func c23SameParent(r *vlib.Run, c *c23Case) {
+	s := c23Initial()
+	for _, ev := range c.History {
+		n, v, _ := c23Step(&s, ev)
+		if v != "" {
+			return
+		}
+		s = n
+	}
+	cs := c23Reset()
+	c23Spare = c.Spare
+	c23Install(cs, &s)
+	c23Spare = 0
+	cs.GetPosteriorStates().SetState(blockchain.NewPosteriorStates().GetState())
+	parentAcc := cs.GetPriorStates().GetGammaA()
+	A, B := c.Same[0], c.Same[1]
+	_, verdictA, _ := c23Step(&s, A)
+	c23KeyPrefix = "same-parent:A"
+	_, _, okA := c23Apply(r, cs, &s, A, c, false, true)
+	c23KeyPrefix = ""
+	if !c23BodyEq(parentAcc, s.GammaA) {
+		c23DiagPriorMutated++
+	}
+	okB := true
+	if verdictA != "" && okA {
+		cs.GetPosteriorStates().SetState(blockchain.NewPosteriorStates().GetState())
+		c23KeyPrefix = "same-parent:B(after rejected A)"
+		_, _, okB = c23Apply(r, cs, &s, B, c, false, true)
+		c23KeyPrefix = ""
+	}
+	r.Eval()
+	r.Trace()
+	r.Class(fmt.Sprintf("same-parent spare=%v A=%s agree=%v", c.Spare > 0, map[bool]string{true: "accepted", false: "rejected:" + verdictA}[verdictA == ""], okA && okB))
+}
+
 // sequences longer than fullPatLen get the all-zero attempt pattern only
 func c23Events(ids, maxLen, fullPatLen int) []c23Event {
 	var exts [][]c23Ticket
@@ -662,6 +716,8 @@ func TestVerif_C23(t *testing.T) {
 	if r.IsReplay(&rc) {
 		if rc.Fork != nil {
 			c23Fork(r, &rc)
+		} else if rc.Same != nil {
+			c23SameParent(r, &rc)
 		} else {
 			c23Run(r, &rc, true)
 		}
@@ -754,6 +810,43 @@ func TestVerif_C23(t *testing.T) {
 			}
 		}
 	}
+	// ---- same-parent pass: A (every <=2-ticket extrinsic with attempts 0, 5 steps) then B on the same
+	// parent object, parent accumulator slice exact and with spare capacity ----
+	var evA, evB []c23Event
+	for step := 0; step < 5; step++ {
+		for n := 0; n <= 2; n++ {
+			vlib.Sequences(ids, n, func(q []int) {
+				ext := make([]c23Ticket, n)
+				for i, l := range q {
+					ext[i] = c23Ticket{ID: l + 1}
+				}
+				evA = append(evA, c23Event{Step: step, Ext: ext})
+			})
+		}
+	}
+	for _, step := range []int{0, 1, 2} {
+		for _, x := range [][]c23Ticket{nil, {{1, 0}}, {{3, 0}}, {{2, 0}, {5, 1}}} {
+			evB = append(evB, c23Event{Step: step, Ext: x})
+		}
+	}
+	for _, n := range queue {
+		for _, a := range evA {
+			if _, v, _ := c23Step(&n.st, a); v == "" && len(a.Ext) > 0 && a.Step != 0 {
+				continue // accepted A is only a diagnostic: keep the +1 step and the empty extrinsic
+			}
+			idx++
+			if !r.Mine(idx) {
+				continue
+			}
+			for _, b := range evB {
+				for _, spare := range []int{0, 8} {
+					r.Space(1)
+					c23SameParent(r, &c23Case{History: n.hist, Same: &[2]c23Event{a, b}, Spare: spare})
+				}
+			}
+		}
+	}
+	r.Extra("sum_diagnostic_same_parent_cases_where_prior_accumulator_array_was_overwritten", c23DiagPriorMutated)
 	r.StateCount(uint64(len(queue)))
 	r.Extra("max_history_depth", maxDepth)
 }
